@@ -532,6 +532,41 @@ def install(I):
     M['core::option::Option::<T>::map'] = m_map
     M['core::result::Result::<T, E>::map'] = m_map
 
+    def m_array_map(ctx):
+        """[T; N]::map(f): element i of the result is f(element i). When f is exact and pure on an element (one returning
+        path, no event) its value is used; otherwise the element is kept as the abstract application mapped(f, x)."""
+        arr, f = ctx.args
+        I, st = ctx.I, ctx.st
+        if not isinstance(arr, Array) or arr.length is None:
+            raise Unsupported('map over %r' % (arr,))
+        elems = {}
+        for i in range(arr.length):
+            iv = BV.const(64, i)
+            x, _ = arr.get(iv)
+            if x is None:
+                raise Unsupported('map over array with unknown element')
+            s2 = st.clone()
+            n_ev = len(s2.events)
+            sub = CallCtxView(ctx, s2)
+            r = None
+            try:
+                outs = call_closure(sub, f, [x])
+            except Unsupported:
+                outs = None
+            if outs is not None and len(outs) == 1 and outs[0].kind == 'ret' and \
+                    not [e for e in outs[0].st.events[n_ev:] if e[0] not in ('icall',)]:
+                r = outs[0].val
+            else:
+                r = Struct('mapped', [f, x])
+            elems[iv.key()] = (iv, r)
+        return Array('mapped', elems, length=arr.length)
+    M['core::array::<impl [T; N]>::map'] = m_array_map
+
+    class CallCtxView:
+        def __init__(self, ctx, st):
+            self.I, self.st, self.fr, self.c, self.target, self.gargs = ctx.I, st, ctx.fr, ctx.c, ctx.target, ctx.gargs
+            self.args, self.argtys, self.dest_ty, self.loc = ctx.args, ctx.argtys, {'k': 'other'}, ctx.loc
+
     def m_unwrap(ctx):
         v = ctx.args[0]
         if not isinstance(v, Enum):
